@@ -282,7 +282,11 @@ def check_case(ck, lib, gm, seed, nsteps, stats):
     if not ok:
       raise Violation('%s (type %s, object %s, reference %s, cutoff %g, nefc %d): %s\nstate: seed=%d nsteps=%d\n%s' % (
           s['xml'], ename, s['obj'], s['ref'], cutoff, nefc, msg, seed, nsteps, gm.xml), bucket='law:' + kind)
-    stats['worst'][r.cls] = max(stats['worst'].get(r.cls, 0.0), ratio)
+    if ratio > stats['worst'].get(r.cls, 0.0):
+      stats['worst'][r.cls] = ratio
+      stats.setdefault('worst_case', {})[r.cls] = dict(sensor=s['xml'], seed=seed, nsteps=nsteps, xml=gm.xml, ratio=ratio,
+                                                       maxqvel=float(np.max(np.abs(d.qvel))) if m.nv else 0.0,
+                                                       maxqacc=float(np.max(np.abs(d.qacc))) if m.nv else 0.0)
     if deep and nefc > 0:
       stats['deep'][kind] += 1
     if deep and nefc > 0 and rbody > 0 and level != 'isolation':
